@@ -510,6 +510,81 @@ def c20(run):
                        distinct_nontrivial=st.get("snaps", 0) + st.get("obs", 0) - st.get("keys", 0))
 
 
+FAULT_CLAUSES = {
+    "C13": {"PanicSurfaces", "ProcessDead", "ExecReturns"},
+    "C14": {"CancelFinal", "ExecReturns", "NoLeak"},
+    "C15": {"ErrorSurfaces"},
+    "C17": {"QuerierBeforeExec", "QuerierAfterReturn", "QuerierClosedOnce", "DataUnmodified"},
+}
+FAULT_MODES = {"C13": ["panic"], "C14": ["cancel", "block", "cancelcall"], "C15": ["err"], "C17": ["err", "panic", "cancel", "block"]}
+
+
+def fault_check(run, rule_extra, assumptions):
+    binary = vlib.build()
+    quick = run.tier == "quick"
+    scs = vlib.generate(run, "Gen_Fault", gen_cfg(run.tier, run.seed, 1, ["EmitFault"]), "fault", fam=run.prop, timeout=600)
+    modes = FAULT_MODES[run.prop]
+    for s in scs:
+        s["cfg"]["modes"] = modes
+        s["cfg"]["maxk"] = (24 if quick else 400) if len(modes) == 1 else (10 if quick else 150)
+    log("Gen_Fault.tla: %d plan/window/config scenarios, modes %s" % (len(scs), modes))
+    chunks = max(1, min(vlib.NCPU // 2, len(scs) // 6))
+    traces = vlib.replay(run, binary, "fault", scs, "f", chunks=chunks, j=vlib.NCPU, stall=120)
+    viols, stats = vlib.validate(run, "ExecTrace", traces, "f")
+    st = sum_stats(stats)
+    hdr = headers_of(traces, {x[0] for x in viols})
+    own = FAULT_CLAUSES[run.prop]
+
+    def cp(clause, fam):
+        ps = [p for p, cs in FAULT_CLAUSES.items() if clause in cs]
+        if clause == "FaultFreeOK":
+            ps = ["C11"]
+        return ps
+    attribute(run, viols, hdr, cp)
+    run.cov["traces_validated_against_impl"] = st.get("runs", 0)
+    run.cov["samples"] = [{"query": h.get("q"), "cfg": h.get("cfg")} for h in list(headers_of(traces, {s["id"] for s in scs[:3]}).values())]
+    run.cov["fault_stats"] = st
+    if st.get("runs", 0) == 0 or st.get("fired", 0) == 0:
+        raise Infra("vacuous run: no fault fired: %s" % st)
+    return vlib.finish(run, "fault_enumeration",
+                       rule=("Gen_Fault.tla emits 16 plan shapes covering every operator kind (incl. merged selects, step-invariant, unary, "
+                             "distributed over two remote engines) x instant / 12-step windows x core counts. For each the replayer runs the "
+                             "query fault-free (twice) and then once per fault and per storage callback index k reached by the fault-free run "
+                             "(all k up to the tier's cap, else first/last and a seeded sample): " + rule_extra + " The instrumented storage "
+                             "records querier open/close in real order; TLC validates the clauses of ExecTrace.tla (query life cycle with open "
+                             "queriers, fault, outcome) on every event. distinct_nontrivial = runs in which the fault fired."),
+                       assumptions=assumptions,
+                       distinct_nontrivial=st.get("fired", 0))
+
+
+def c13(run):
+    return fault_check(run, "a runtime panic (a value implementing runtime.Error) raised inside the k-th callback on whichever goroutine evaluates it; "
+                            "the run must end with the query's error, the child process must survive.",
+                       ["extreme parameters and degenerate data are exercised by C04/C06/C01's generators (crashes there are attributed to C13 as ProcessDead)",
+                        "a dead child process identifies the crashing scenario; the batch resumes after it"])
+
+
+def c14(run):
+    return fault_check(run, "cancellation of the context inside the k-th callback, a callback that blocks until the context is cancelled, and "
+                            "Query.Cancel() from another goroutine at seeded instants, against a storage that honours the context; Exec must "
+                            "return within 5 s with the context's error or the complete fault-free result, and no goroutine may be alive "
+                            "3 s after Close.",
+                       ["bounded time = 5 s; goroutine census by runtime.NumGoroutine with a 3 s grace period", "scheduling is whatever the Go scheduler does under the injected faults"])
+
+
+def c15(run):
+    return fault_check(run, "an error returned by Querier(), by SeriesSet.Err after the k-th Next, or by an iterator's Seek/Next (ValNone + Err); "
+                            "the result must carry an error that wraps the storage's error.",
+                       ["errors.Is(result.Err, injected) decides 'wraps the storage's error'"])
+
+
+def c17(run):
+    return fault_check(run, "every outcome (normal, error, panic, cancellation, blocking at every k); queriers must not be opened before Exec, "
+                            "must be closed exactly once and before Exec returns; the storage hands out the very same label slices on every call "
+                            "and compares them (and the samples) with deep snapshots afterwards.",
+                       ["querier open/close order from the storage's own event log (global sequence numbers)"])
+
+
 def c07(run):
     binary = vlib.build()
     mc_volcano(run)
@@ -533,4 +608,4 @@ def c07(run):
                        distinct_nontrivial=st.get("obs", 0) - st.get("keys", 0))
 
 
-RECIPES = {"C01": c01, "C07": c07, "C08": c08, "C09": c09, "C10": c10, "C11": c11, "C20": c20, "C16": c16, "C18": c18, "C19": c19, "C02": c02, "C03": c03, "C04": c04, "C05": c05, "C06": c06}
+RECIPES = {"C01": c01, "C07": c07, "C08": c08, "C09": c09, "C10": c10, "C11": c11, "C13": c13, "C14": c14, "C15": c15, "C17": c17, "C20": c20, "C16": c16, "C18": c18, "C19": c19, "C02": c02, "C03": c03, "C04": c04, "C05": c05, "C06": c06}
